@@ -122,6 +122,12 @@ func (c *RawClient) credSetters(op *Op, withAuth bool) (pre []stun.Setter, post 
 		}
 	case "wrongrealm":
 		realm += "x"
+	case "othernonce":
+		if c.W.Mini != nil {
+			if n, err := c.W.Mini.other.Generate(); err == nil {
+				nonce = n
+			}
+		}
 	}
 	if mode != "nouser" {
 		pre = append(pre, stun.NewUsername(user))
